@@ -187,18 +187,38 @@ def suite_gen_evglue(rng, tier, shard, nshards):
             yield Case("gen.evglue", ["util.match_events", ref, est, w],
                        lambda r=r, e=e, w=w: [[int(a), int(b)] for a, b in U.match_events(r, e, float(w))],
                        tag="gen match_events", info=dict(info, fn="util.match_events"), nontrivial=bool(ref and est))
+    import mir_eval.tempo as _T
+    for _ in range(120 if tier == "quick" else 2000):
+        rt = [_Fr(rng.choice([0, 0, 60, 90, 120, 121, -1]), 1) for _ in range(rng.choice([2, 2, 2, 2, 1, 3, 0]))]
+        et = [_Fr(rng.choice([0, 60, 64, 90, 120, 180, -5]), 1) for _ in range(rng.choice([2, 2, 2, 2, 1, 3]))]
+        wt = rng.choice([_Fr(0), _Fr(1, 4), _Fr(1, 2), _Fr(1), _Fr(5, 4), _Fr(-1, 8)])
+        yield Case("gen.evglue", ["tempo.validate", rt, wt, et],
+                   lambda rt=rt, wt=wt, et=et: _T.validate(_np.array([float(x) for x in rt]), float(wt),
+                                                           _np.array([float(x) for x in et])),
+                   tag="gen tempo.validate", info={"op": "gen.evglue", "fn": "tempo.validate", "ref": [str(x) for x in rt],
+                                                   "weight": str(wt), "est": [str(x) for x in et]})
+        tol = rng.choice([_Fr(2, 25), _Fr(0), _Fr(1, 2), _Fr(1), _Fr(3, 2), _Fr(-1, 10), _Fr(1, 15)])
+        yield Case("gen.evglue", ["tempo.detection", rt, wt, et, tol],
+                   lambda rt=rt, wt=wt, et=et, tol=tol: list(_T.detection(_np.array([float(x) for x in rt]), float(wt),
+                                                                       _np.array([float(x) for x in et]), float(tol))),
+                   tag="gen tempo.detection faults", info={"op": "gen.evglue", "fn": "tempo.detection",
+                                                          "ref": [str(x) for x in rt], "weight": str(wt),
+                                                          "est": [str(x) for x in et], "tol": str(tol)})
     lim = 200 if tier == "quick" else None
     for key, fn in (("onset.onset.f_measure", "onset.f_measure"), ("onset.onset.exhaustive", "onset.f_measure"),
                     ("beat.beat.f_measure", "beat.f_measure"), ("boundary.segment.detection", "segment.detection"),
                     ("boundary.segment.deviation", "segment.deviation"), ("fixtures.onset", "onset.f_measure"),
-                    ("fixtures.beat", "beat.f_measure"), ("fixtures.segment_boundary", None)):
+                    ("fixtures.beat", "beat.f_measure"), ("fixtures.segment_boundary", None),
+                    ("tempo.tempo.detection", "tempo.detection"), ("tempo.tempo.exhaustive", "tempo.detection"),
+                    ("fixtures.tempo", "tempo.detection")):
         if key not in SUITES:
             continue
         for k, c in enumerate(SUITES[key](rng, tier, shard, nshards)):
             if lim is not None and k >= lim:
                 break
             f = fn or c.op
-            if c.op == f and f in ("onset.f_measure", "beat.f_measure", "segment.detection", "segment.deviation"):
+            if c.op == f and f in ("onset.f_measure", "beat.f_measure", "segment.detection", "segment.deviation",
+                                   "tempo.detection", "tempo.validate"):
                 yield _retarget_glue(c, f)
 
 
